@@ -486,6 +486,26 @@ def lookalike_programs():
     return out
 
 
+def constfold_programs():
+    """Literals a constant folder may precompute, where the folded value must equal the value built at run time: objects with DUPLICATED keys
+    (the last one wins, also when it is null or false), in every spelling of the key, nested and inside arrays; and update operators whose
+    left-hand side LOOKS like a constant path but carries a suffix that is not an index (`?`, `[]`, slices, string interpolation)."""
+    vals = ["1", "null", "false", "0", '""', "[]", "{}", "true", "[null]", "{a: null}"]
+    out = []
+    for a in vals:
+        for b in vals:
+            if a == b:
+                continue
+            out += ["{a: %s, a: %s}" % (a, b), "{a: %s, b: 2, a: %s}" % (a, b), '{a: %s, "a": %s}' % (a, b), "{c: {a: %s, a: %s}}" % (a, b), "[{a: %s, a: %s} | .a]" % (a, b), "[{a: %s, a: %s}, {a: %s}]" % (a, b, a),
+                    "{a: %s, a: %s, a: %s}" % (a, b, a), "{a: %s, a: %s} | keys, length, .a" % (a, b), '{a: %s, ("a"): %s}' % (a, b), '{"a": %s, a: %s, b: {a: %s, a: %s}}' % (b, a, a, b), "{a: %s, @text \"a\": %s}" % (a, b)]
+    paths = [".a?", ".a??", ".[0]?", '."a"?', '.["a"]?', ".a?.b", ".a.b?", ".a?.b?", ".a[0]?", ".[0]?.a", ".a[]?", ".a[]", ".[]?", ".a[1:]?", ".[1:]?", '."a\\(1)"', '."a\\(1)"?', ".a?[0]", "(.a)?", "(.a?)", ".[0]?[1]?", ".a | .b?", ".a? // .b", "..?", ".a?.[0]"]
+    rhs = ["5", "(1, 2)", "null", ".", "empty"]
+    for pth in paths:
+        for x in rhs:
+            out += ["%s = %s" % (pth, x), "[.[]? | (%s = %s)]" % (pth, x), "(%s) |= %s" % (pth, x), "try (%s = %s) catch \"caught\"" % (pth, x), "(%s) += %s" % (pth, x if x != "empty" else "1"), "del(%s)" % pth, "[path(%s)]" % pth]
+    return out
+
+
 def scope_programs():
     """The complete, deterministic core of scope_program: every construct x every position of ONE shadowing definition (three kinds)
     with uses of the outer names in all sibling positions."""
